@@ -55,7 +55,7 @@ def gen_cases(rng, tier):
         spec["constraints"] = [ocpgen.gen_constraint(rng, spec, cid + 1, grids=grids) for cid in range(ncon)]
         for c in spec["constraints"]:
             if rng.random() < 0.2:
-                c["scale"] = ocpgen.rnd(rng, 0.2, 8.0, 3)   # scale= divides body and bounds alike: same instances
+                c["scale"] = ocpgen.rand_constraint_scale(rng, c)   # scale= divides body and bounds alike: same instances
         if rng.random() < 0.3:
             spec["objective"] = ocpgen.gen_objective(rng, spec, 1)
         kind = "normal"
